@@ -116,8 +116,9 @@ def check_generator(ctx: Ctx, fi: FuncInfo) -> None:
     ctx.count("make_ann_param_emissions", n_emit)
     if len(counters) != 1:
         ctx.ob("D16.4", fi, fi.node, False,
-               f"the emitted params[...] indices use {sorted(counters)} "
-               "instead of one running parameter counter",
+               f"the emitted params[...] indices use {sorted(counters)}: "
+               "the scheme `one running parameter counter, increased after "
+               "every emission` is not recognised",
                construct="single parameter counter")
         return
     counter = next(iter(counters))
@@ -926,6 +927,12 @@ def check_emission_grammar(ctx: Ctx, fi: FuncInfo) -> None:
         if p_.args and repo.const(fi.module, p_.args[0]) not in (0, -1):
             problems.append(f"`{src(p_)}` can address beyond a one-element "
                             "list")
+    if any("emitted text not constant" in p_ or "fragments are" in p_
+           for p_ in problems):
+        # text assembled from computed pieces: nothing is claimed about it
+        problems = ["the emission scheme of make_ann (statements written as "
+                    "constant f-string fragments) is not recognised: "
+                    + "; ".join(dict.fromkeys(problems))[:400]]
     ctx.ob("D16.7", fi, fi.node, not problems,
            "every emitted statement is one balanced, terminated assignment; "
            "each input name is defined as state[i] when it is registered; "
@@ -937,8 +944,15 @@ def check_emission_grammar(ctx: Ctx, fi: FuncInfo) -> None:
     mk = [c for c in ast.walk(fi.node) if isinstance(c, ast.Call)
           and isinstance(c.func, ast.Name) and c.func.id == "Controller"]
     okc = False
-    if len(mk) == 1 and len(mk[0].args) == 5 and not mk[0].keywords:
-        a = mk[0].args
+    why_c = ("the Controller is not created from (state_dims, control_dims, "
+             "parameter counter, code.build()) in this order")
+    from sa.srcmodel import bound_args, inline_locals
+    cargs = bound_args(mk[0], ["name", "state_dims", "control_dims",
+                               "param_dims", "func"]) if len(mk) == 1 else {}
+    if len(cargs) == 5:
+        a = [cargs[k_] for k_ in ("name", "state_dims", "control_dims",
+                                  "param_dims", "func")]
+        a[4] = inline_locals(fi.node, a[4])
         cnt = None
         for em_call in ast.walk(fi.node):
             if isinstance(em_call, ast.JoinedStr):
@@ -949,13 +963,30 @@ def check_emission_grammar(ctx: Ctx, fi: FuncInfo) -> None:
                             vs[k_ - 1], ast.Constant) and str(
                             vs[k_ - 1].value).endswith("params["):
                         cnt = v.value.id
-        okc = src(a[1]) == fi.params[0] and src(a[2]) == fi.params[1] and \
-            src(a[3]) == (cnt or "?") and src(a[4]).endswith(".build()")
+        cnts = set()
+        for em_call in ast.walk(fi.node):
+            if isinstance(em_call, ast.JoinedStr):
+                vs = em_call.values
+                for k_, v in enumerate(vs):
+                    if isinstance(v, ast.FormattedValue) and k_ > 0 and \
+                            isinstance(vs[k_ - 1], ast.Constant) and str(
+                            vs[k_ - 1].value).endswith("params["):
+                        cnts.add(src(v.value))
+        dims_ok = src(a[1]) == fi.params[0] and src(a[2]) == fi.params[1] \
+            and src(a[4]).endswith(".build()")
+        if len(cnts) == 1:
+            okc = dims_ok and src(a[3]) == next(iter(cnts))
+        elif dims_ok and isinstance(a[3], ast.Name):
+            # several index expressions (offsets from a counter): which of
+            # them is the counter is the business of D16.4
+            okc = any(c_.replace(" ", "") == a[3].id or c_.replace(
+                " ", "").startswith(a[3].id + "+") for c_ in cnts)
+            if not okc:
+                why_c = ("the parameter counter handed to the Controller is "
+                         "not recognised")
     ctx.ob("D16.7", fi, mk[0] if mk else fi.node, okc,
            "Controller(name, state_dims, control_dims, <parameter counter>, "
-           "<generated function>)" if okc else
-           "the Controller is not created from (state_dims, control_dims, "
-           "parameter counter, code.build()) in this order",
+           "<generated function>)" if okc else why_c,
            construct="Controller of make_ann")
     mod = fi.module
     anns = mod.funcs.get("anns")
@@ -973,6 +1004,10 @@ def check_emission_grammar(ctx: Ctx, fi: FuncInfo) -> None:
         def layers_ok(c: ast.Call) -> bool:
             a2 = c.args[2]
             if isinstance(a2, ast.List):
+                return True
+            if isinstance(a2, ast.Call) and src(a2.func) == "list" and \
+                    len(a2.args) == 1:
+                # list(layout) for layout in a table of layouts
                 return True
             # make_ann(.., hidden) for hidden in ([..], [..], ...)
             for g_ in ast.walk(anns.node):
@@ -1155,6 +1190,11 @@ def check_code_generator(ctx: Ctx) -> None:
         if not okb:
             problems.append("build() does not finish the last line, take "
                             "the text and exec it to obtain ____func")
+    if len(problems) >= 3:
+        # most of the recognisers miss: the class is written differently,
+        # not wrong in one place - nothing is claimed
+        problems = ["the way CodeGenerator is written is not recognised ("
+                    + "; ".join(problems)[:300] + ")"]
     ctx.ob("D16.8", cg.methods["__init__"], cg.node, not problems,
            "CodeGenerator: header (njit decorator, def line), body lines "
            "indented by 4 spaces per level exactly at the start of a line, "
